@@ -711,6 +711,13 @@ func init() {
 			ruleHistoryIndependence(c, w, tb, NewEffects(tb), "R14.4", w.Funcs(OtpPath, "GenerateOCRA", "ValidateOCRA", "NewSuite", "NewRawSuite", "OCRAInput.Validate", "SuiteConfig.Validate")...)
 			// the REST entry: both OCRA endpoints hand the five hex fields to the library unchanged, so admission is the library's
 			checkRESTEndpoints(c, w, tb, NewEffects(tb), "R14.REST", "/ocra/generate", "/ocra/validate")
+			// … where the format and password hash that select the admitted lengths arrive as bare numbers
+			ruleWireEnums(c, w, "R14.5")
+			c.Floor("R14.5", 11)
+			// a hand-built configuration is admitted or refused as given: the constructor neither completes nor
+			// replaces it before (or after) validating it
+			ruleConstructorIdentity(c, w, tb, "R14.6")
+			c.Floor("R14.6", 1)
 			c.Floor("R14.1", 1)
 			c.Floor("R14.2", 4)
 			c.Floor("R14.3", 8)
@@ -719,3 +726,31 @@ func init() {
 }
 
 var _ = big.NewInt
+
+// ruleWireEnums (shared by C14, C15, C18): the numeric values of the exported enumerations are part of the wire
+// contract — the REST fields challenge_format / password_hash and the JSON form of SuiteConfig carry the bare
+// numbers, documented as 1=QN08 2=QN10 3=QA08 4=QA10 5=QH08 6=QH10 and 1=PSHA1 2=PSHA256 3=PSHA512 (0 = none).
+// Inside the library everything is symbolic, so a regrouped const block stays self-consistent while every
+// numerically encoded suite silently means another format.
+func ruleWireEnums(c *Check, w *World, rule string) {
+	doc := []struct {
+		name string
+		val  int64
+	}{
+		{"ChallengeNone", 0}, {"ChallengeNumeric08", 1}, {"ChallengeNumeric10", 2}, {"ChallengeAlpha08", 3}, {"ChallengeAlpha10", 4}, {"ChallengeHex08", 5}, {"ChallengeHex10", 6},
+		{"PasswordNone", 0}, {"PasswordSHA1", 1}, {"PasswordSHA256", 2}, {"PasswordSHA512", 3},
+	}
+	for _, d := range doc {
+		pos := ""
+		if o := w.Pkgs[OtpPath].Types.Scope().Lookup(d.name); o != nil {
+			pos = w.Pos(o.Pos())
+		}
+		v, ok := w.pkgConstInt(d.name)
+		switch {
+		case !ok:
+			c.Unk(rule, "otp."+d.name, "wire-value", "the exported constant "+d.name+" was not found", pos)
+		default:
+			c.Decide(v == d.val, rule, "otp."+d.name, "wire-value", fmt.Sprintf("%s = %d as documented for the numeric wire form", d.name, d.val), fmt.Sprintf("%s = %d, documented %d: a suite sent or reported as a number means a different format", d.name, v, d.val), pos)
+		}
+	}
+}
